@@ -36,6 +36,17 @@ class Chooser:
     def labels(self) -> list[str]:
         return [p[4] for p in self.points if p[3] != 0]
 
+    def withheld(self) -> bool:
+        """an event was held / lost and never released: 'eventually' clauses cannot be judged on this schedule"""
+        held = set()
+        for lbl in self.labels():
+            kind, _, key = lbl.partition(':')
+            if kind in ('hold', 'lose'):
+                held.add(key)
+            elif kind.startswith('unhold'):
+                held.discard(key)
+        return bool(held)
+
 
 class ExploreResult:
     def __init__(self):
